@@ -1521,8 +1521,16 @@ class composite_if(x12_node):
                 self.name, self.refdes)
             errh.ele_error('3', err_str, None, self.refdes)
             valid = False
+        dtype = []
         for i in range(min(len(comp_data), self.get_child_count())):
-            valid &= self.get_child_node_by_idx(i).is_valid(comp_data[i], errh)
+            child_node = self.get_child_node_by_idx(i)
+            if child_node.data_ele == '1250' and comp_data[i].get_value() in ('RD8', 'D8', 'D6', 'DT', 'TM'):
+                # Date Time Period Format Qualifier: governs the following Date Time Period (1251)
+                dtype = [comp_data[i].get_value()]
+            if child_node.data_ele == '1251' and len(dtype) > 0:
+                valid &= child_node.is_valid(comp_data[i], errh, dtype)
+            else:
+                valid &= child_node.is_valid(comp_data[i], errh)
         for i in range(min(len(comp_data), self.get_child_count()), self.get_child_count()):
             if i < self.get_child_count():
                 #Check missing required elements
